@@ -1,11 +1,14 @@
 (* C05 -- Droop proportionality for solid coalitions.
-   No general theorem is proved (DESIGN C05: the coalition invariant is the largest single proof of the plan);
-   the property is decided by the exhaustive coalition oracle on every generated election (all subsets S, all k)
-   and the final-scope correspondence.  What IS machine-checked: the property is FALSE of the faithful model for
+   Proved: the ONE-SEAT clause ("with one seat, a candidate ranked first by more than half of the ballots always wins")
+   for wigm-prf under Fixed / integer / Guarded(guard 0), as a whole-run theorem (C05_one_seat_majority_wins_partial).
+   The general coalition statement is not proved (DESIGN C05: the coalition invariant is the largest single proof of the
+   plan); it is decided by the exhaustive coalition oracle on every generated election (all subsets S, all k)
+   and the final-scope correspondence.  Also machine-checked: the property is FALSE of the faithful model for
    the Warren rule (open finding K4): the witness below evaluates, inside Coq, to an outcome in which the
    coalition {3,4,5}, ranked first by 4 of 6 ballots (> 3 quotas of 1.2001 plus the allowance), wins 2 seats. *)
 From Coq Require Import ZArith List Bool String PArith.
-From Droop Require Import Model.KernelBase Model.Arith Model.Prelude Model.State Model.Prims Model.Election.
+From Droop Require Import Model.KernelBase Model.Arith Model.Prelude Model.State Model.Prims Model.Election
+  Proofs.Zlike Proofs.ConserveCount Proofs.Majority.
 Import ListNotations.
 Open Scope Z_scope.
 
@@ -36,3 +39,19 @@ Example C05_warren_refuted :
   | _ => False
   end.
 Proof. vm_compute. repeat split; reflexivity. Qed.
+
+(* ---- the one-seat clause, whole runs of wigm-prf (without sure-loser batches) ----
+   [first_prefs pr m] = the number of ballot papers whose first preference is candidate m; [ballot_total pr] = all papers.
+   If m is not withdrawn and more than half of the papers rank m first, every count with one seat that ends without a
+   crash ends with m elected.  (The first-preference tally is the value of those papers -- the Gregory invariant --
+   which reaches floor(papers/2)+1 units; the first election step elects every hopeful holding the quota; statuses only
+   move forward; if the main loop never runs, m is the only hopeful and the closing step elects it.) *)
+Theorem C05_one_seat_majority_wins_partial : forall A S (ZL : zlike A S) cfg,
+  cf_method cfg = MWigm -> exact A = false -> raw ZL (epsilon A) = 1 -> cf_nseats cfg = 1 ->
+  forall pr m fuel s k, cf_batch cfg = false -> wf_profile pr -> cf_nballots cfg = ballot_total pr ->
+  (exists pc, In pc (pr_cands pr) /\ pc_cid pc = m /\ pc_withdrawn pc = false) ->
+  ballot_total pr < 2 * first_prefs pr m ->
+  exec (@crashed A) fuel (count_cmd A cfg RWigmPrf) (init_state A cfg pr) = Some (s, k) -> k <> Abort ->
+  forall c, In c (cands s) -> cid c = m -> cst c = Elected.
+Proof. exact (fun A S ZL cfg _ => count_majority_prf A S ZL cfg). Qed.
+Print Assumptions C05_one_seat_majority_wins_partial.
